@@ -10,6 +10,7 @@ package nbio
 import (
 	"encoding/binary"
 	"errors"
+	"io"
 	"net"
 	"runtime"
 	"sync"
@@ -183,6 +184,12 @@ func (c *Conn) AsyncRead() {
 					_ = c.closeWithError(err)
 					return
 				}
+				if n == 0 && c.isStream() {
+					// end of the stream: the poller leaves the close to
+					// the read task, after everything has been read.
+					_ = c.closeWithError(io.EOF)
+					return
+				}
 				if n < len(*pbuf) {
 					break
 				}
@@ -228,6 +235,11 @@ func (c *Conn) AsyncRead() {
 				}
 				if err != nil {
 					_ = c.closeWithError(err)
+					return
+				}
+				if n == 0 && c.isStream() {
+					// end of the stream, see above.
+					_ = c.closeWithError(io.EOF)
 					return
 				}
 				if n < len(*pBuf) {
@@ -294,6 +306,11 @@ func (c *Conn) ReadAndGetConn(pdata *[]byte) (*Conn, int, error) {
 	// }
 
 	return dstConn, n, err
+}
+
+//go:norace
+func (c *Conn) isStream() bool {
+	return c.typ == ConnTypeTCP || c.typ == ConnTypeUnix
 }
 
 //go:norace
